@@ -92,6 +92,7 @@ func runC18(c *Ctx) {
 	c18Mirror(c, p)
 	c18LinesPartition(c, p)
 	c18ChangeApplied(c, p)
+	c18PublishedFromMirror(c, p)
 	// R3 bounds
 	be := newBoundsEngine(p)
 	nb := 0
@@ -1006,4 +1007,194 @@ func c18ChangeApplied(c *Ctx, p *core.Prog) {
 		}
 	}
 	r.Floor("change-applied", n, 1, "handlers that apply a decoded change")
+}
+
+// c18PublishedFromMirror: the diagnostics published after a change are those of the mirrored text. In every handler that
+// applies a change (calls DocumentManager.Update), the text it hands to the publishing function (a function of pkg/lsp
+// that parses a string parameter with pkg/gosqlx and sends textDocument/publishDiagnostics) is read back from the
+// document manager after the Update call - the result of one of its methods, or a field of the document such a method
+// returned - on every path. A handler that takes the text from the notification instead ("a full-sync change already
+// carries the whole text") publishes the diagnostics of an intermediate text when a later change of the same
+// notification edits it again, and publishes for documents the manager does not hold.
+func c18PublishedFromMirror(c *Ctx, p *core.Prog) {
+	r := c.R
+	r.Rule("published-from-mirror", "in a handler that calls DocumentManager.Update, every text passed afterwards to the function that parses it and publishes diagnostics is, on every path, the result of a DocumentManager method called after (or being) that Update, or a field of the document such a call returned")
+	isDM := func(f *ssa.Function) bool {
+		if f == nil || f.Signature.Recv() == nil {
+			return false
+		}
+		nt := core.NamedOf(core.Deref(f.Signature.Recv().Type()))
+		return nt != nil && nt.Obj().Name() == "DocumentManager" && core.InPkgs(f, "pkg/lsp")
+	}
+	// publishers: function -> indices (in Params) of the text parameters it parses
+	publishers := map[*ssa.Function][]int{}
+	for _, fn := range p.SrcFuncs("pkg/lsp") {
+		if fn.Parent() != nil {
+			continue
+		}
+		sends := false
+		var textIdx []int
+		for _, b := range fn.Blocks {
+			for _, in := range b.Instrs {
+				ci, ok := in.(ssa.CallInstruction)
+				if !ok {
+					continue
+				}
+				cc := ci.Common()
+				f := cc.StaticCallee()
+				if f == nil {
+					continue
+				}
+				if f.Name() == "SendNotification" {
+					for _, a := range cc.Args {
+						if s, ok := core.ConstString(a); ok && s == "textDocument/publishDiagnostics" {
+							sends = true
+						}
+					}
+				}
+				if core.InPkgs(f, "pkg/gosqlx") {
+					for _, a := range cc.Args {
+						for i, par := range fn.Params {
+							if a == ssa.Value(par) && isStringOrBytes(par.Type()) {
+								textIdx = append(textIdx, i)
+							}
+						}
+					}
+				}
+			}
+		}
+		if sends && len(textIdx) > 0 {
+			publishers[fn] = textIdx
+		}
+	}
+	if len(publishers) == 0 {
+		r.Fatal("anchor not found: no function of pkg/lsp parses a text parameter with pkg/gosqlx and publishes diagnostics")
+		return
+	}
+	n := 0
+	for _, fn := range p.SrcFuncs("pkg/lsp") {
+		var upd *ssa.Call
+		for _, b := range fn.Blocks {
+			for _, in := range b.Instrs {
+				if call, ok := in.(*ssa.Call); ok && isDM(call.Call.StaticCallee()) && call.Call.StaticCallee().Name() == "Update" {
+					upd = call
+				}
+			}
+		}
+		if upd == nil {
+			continue
+		}
+		after := func(in ssa.Instruction) bool {
+			if in.Block() == upd.Block() {
+				for _, x := range in.Block().Instrs {
+					if x == ssa.Instruction(upd) {
+						return true
+					}
+					if x == in {
+						return false
+					}
+				}
+			}
+			return upd.Block().Dominates(in.Block())
+		}
+		// fromMirror: "" when every leaf of v is read from the document manager after the update, else the offending leaf
+		var fromMirror func(v ssa.Value, inFn bool, depth int, seen map[ssa.Value]bool) string
+		fromMirror = func(v ssa.Value, inFn bool, depth int, seen map[ssa.Value]bool) string {
+			if seen[v] {
+				return ""
+			}
+			seen[v] = true
+			switch x := v.(type) {
+			case *ssa.Const:
+				if s, ok := core.ConstString(x); ok && s != "" {
+					return "the constant " + x.Name()
+				}
+				return ""
+			case *ssa.Phi:
+				for _, e := range x.Edges {
+					if w := fromMirror(e, inFn, depth, seen); w != "" {
+						return w
+					}
+				}
+				return ""
+			case *ssa.Extract:
+				return fromMirror(x.Tuple, inFn, depth, seen)
+			case *ssa.UnOp:
+				if x.Op == token.MUL {
+					if fa, ok := x.X.(*ssa.FieldAddr); ok {
+						if nt := core.NamedOf(core.Deref(fa.X.Type())); nt != nil && nt.Obj().Name() == "Document" {
+							return fromMirror(fa.X, inFn, depth, seen)
+						}
+					}
+				}
+			case *ssa.Field:
+				if nt := core.NamedOf(core.Deref(x.X.Type())); nt != nil && nt.Obj().Name() == "Document" {
+					return fromMirror(x.X, inFn, depth, seen)
+				}
+			case *ssa.Call:
+				f := x.Call.StaticCallee()
+				if isDM(f) {
+					if inFn && !after(x) {
+						return "the result of " + f.Name() + " called before the change is applied"
+					}
+					return ""
+				}
+				// a helper of pkg/lsp that reads the manager for the handler
+				if f != nil && f.Blocks != nil && core.InPkgs(f, "pkg/lsp") && depth < 2 {
+					if inFn && !after(x) {
+						return "the result of " + f.Name() + " called before the change is applied"
+					}
+					for _, b := range f.Blocks {
+						if ret, ok := b.Instrs[len(b.Instrs)-1].(*ssa.Return); ok && len(ret.Results) > 0 {
+							if w := fromMirror(ret.Results[0], false, depth+1, map[ssa.Value]bool{}); w != "" {
+								return w + " (returned by " + f.Name() + ")"
+							}
+						}
+					}
+					return ""
+				}
+			}
+			return "`" + c18Describe(v) + "`"
+		}
+		seq := 0
+		for _, b := range fn.Blocks {
+			for _, in := range b.Instrs {
+				call, ok := in.(*ssa.Call)
+				if !ok {
+					continue
+				}
+				idx, ok := publishers[call.Call.StaticCallee()]
+				if !ok || !after(call) {
+					continue
+				}
+				for _, i := range idx {
+					// Params includes the receiver, and so does Call.Args for a static method call
+					if i >= len(call.Call.Args) {
+						continue
+					}
+					n++
+					seq++
+					key := core.FnName(fn) + "|" + call.Call.StaticCallee().Name() + sprintf("#%d", seq)
+					if w := fromMirror(call.Call.Args[i], true, 0, map[ssa.Value]bool{}); w == "" {
+						r.OK("published-from-mirror", key, p.Pos(call.Pos()), "text read back from the document manager after Update")
+					} else {
+						r.Violate("published-from-mirror", key, p.Pos(call.Pos()), "on some path the text whose diagnostics are published is "+w+", not the text the document manager holds after the change: the published diagnostics are those of another text than the mirrored one (an intermediate text when the notification carries further edits; a text for a document that is not open)")
+					}
+				}
+			}
+		}
+	}
+	r.Floor("published-from-mirror", n, 1, "texts handed to the publishing function after a change was applied")
+}
+
+func c18Describe(v ssa.Value) string {
+	if u, ok := v.(*ssa.UnOp); ok && u.Op == token.MUL {
+		if t := fieldPathTerm(u.X); t != "" {
+			return t
+		}
+		if fa, ok := u.X.(*ssa.FieldAddr); ok {
+			return "field " + core.FieldName(fa.X.Type(), fa.Field)
+		}
+	}
+	return v.String()
 }
